@@ -203,6 +203,19 @@ pub fn cases<T: KS + Send + Sync>(out: &mut Out, rng0: &mut Rng, tier: &Tier) {
             out.case("chk.c09.exts", l(vec![nu(k), st.clone(), in_v.clone(), cv.clone(), o.clone()]), b(true));
             out.case("chk.c09.no_dangling", l(vec![nu(k), st.clone(), o.clone()]), b(true));
             out.case("chk.c09.payload", l(vec![nu(k), st.clone(), in_v.clone(), o.clone()]), b(true));
+            // the crate's own is_compressed (which compress_graph asserts in debug builds) against its model
+            {
+                let g1b = clone_base(g1);
+                let ic = guard(std::panic::AssertUnwindSafe(move || g1b.finish().is_compressed(&PaySpec { mode: m2 })));
+                out.case(
+                    "r.is_compressed",
+                    l(vec![nu(k), st.clone(), n(m2), o.clone()]),
+                    opt(ic.map(|x| match x {
+                        Some((a, c)) => l(vec![l(vec![nu(a), nu(c)])]),
+                        None => l(vec![]),
+                    })),
+                );
+            }
             // fold ORDER (non-commutative reduction): seed = lowest input node of the path, then left, then right
             out.case("chk.c09.payload_order", l(vec![nu(k), st.clone(), in_v.clone(), o.clone()]), b(true));
             // an already compressed input (same join predicate) must come back unchanged up to order/orientation
@@ -245,7 +258,39 @@ pub fn cases<T: KS + Send + Sync>(out: &mut Out, rng0: &mut Rng, tier: &Tier) {
     out.nt = false;
 }
 
+/// payload-equality join with a SUMMING reduction: equality is not a congruence for it (known finding F11)
+struct EqSum;
+impl CompressionSpec<Pay> for EqSum {
+    fn reduce(&self, mut d: Pay, other: &Pay) -> Pay {
+        d.0 += other.0;
+        d.1.extend(other.1.iter().cloned());
+        d
+    }
+    fn join_test(&self, a: &Pay, b: &Pay) -> bool {
+        a.0 == b.0
+    }
+}
+
+/// known finding F11: stranded chain AAAC -> AACC -> ACCG with colours 1, 1, 2.  The first two nodes merge (colour 1 + 1 = 2),
+/// the third is refused at the junction (1 != 2); the debug build then asserts is_compressed, which compares the FOLDED
+/// colours 2 == 2 and panics.  Release builds return the two nodes.
+fn f11_case(out: &mut Out) {
+    use debruijn::kmer::Kmer4;
+    let mut g: BaseGraph<Kmer4, Pay> = BaseGraph::new(true);
+    g.add([0u8, 0, 0, 1].iter(), Exts::mk_right(1), (1u8, vec![0u32]));
+    g.add([0u8, 0, 1, 1].iter(), Exts::mk(0, 2), (1u8, vec![1u32]));
+    g.add([0u8, 1, 1, 2].iter(), Exts::mk_left(0), (2u8, vec![2u32]));
+    let in_v = base_nodes_v(&g);
+    let r = guard(std::panic::AssertUnwindSafe(move || compress_graph(true, &EqSum, g.finish(), None).base.len()));
+    out.nt = true;
+    out.case("chk.c09.dbg_assert", l(vec![nu(4), b(true), in_v]), b(r.is_some()));
+    out.nt = false;
+}
+
 pub fn c09(out: &mut Out, rng: &mut Rng, tier: &Tier) {
+    if tier.shard == 0 {
+        f11_case(out);
+    }
     cases::<debruijn::kmer::Kmer4>(out, rng, tier);
     cases::<debruijn::kmer::Kmer5>(out, rng, tier);
     cases::<debruijn::kmer::Kmer6>(out, rng, tier);
